@@ -197,9 +197,9 @@ def _optimises(cfg):
     return cfg.scratch_slots is True or (cfg.scratch_slots is None and cfg.version >= 9)
 
 
-def _unopt_text(prog, cfg):
+def _unopt_text(prog, cfg, tick=None):
     c2 = rb.Cfg(cfg.version, cfg.mode, scratch_slots=False, frame_pointers=cfg.frame_pointers)
-    st, text = drive.compile_recipe(prog, c2, TICK)
+    st, text = drive.compile_recipe(prog, c2, tick or TICK)
     return text if st == "ok" else ""
 
 
@@ -212,6 +212,47 @@ def _worker(items, base):
     if items and base % 1499 == 0:
         out["samples"].append({"driver": items[0][3], "recipe": items[0][1]})
     return out
+
+
+def shared_options_driver(rep):
+    """One OptimizeOptions OBJECT used for several compilations (as Router.compile_program does for the approval
+    and the clear-state program): what the second program compiles to must not depend on the first."""
+    import pyteal as pt
+    progs = {
+        "reserved": {"mode": "A", "vars": {"r": ["u", 7]}, "subs": {},
+                     "main": ["Seq", ["Store", "r", ["Int", 42]], ["GPut", ["Itob", ["Load", "r"]], ["Int", 1]], ["Int", 1]]},
+        "byref": gen_sub.f3(1, "none", 0),
+        "byref2": gen_sub.f3(2, "u", 1),
+        "plain": {"mode": "A", "vars": {"a": "u", "b": "u"}, "subs": {},
+                  "main": ["Seq", ["Store", "a", ["Int", 1]], ["GPut", ["Itob", ["Load", "a"]], ["Int", 1]], ["Store", "b", ["Int", 2]],
+                           ["GPut", ["Itob", ["Load", "b"]], ["Int", 2]], ["Int", 1]]},
+        "shared_slot": gen_sub.f4("in_loop", "u", 1),
+    }
+    names = sorted(progs)
+    for version, fp in ((6, None), (8, True), (8, False), (10, None)):
+        for a in names:
+            for b in names:
+                kw = {"scratch_slots": True}
+                if fp is not None:
+                    kw["frame_pointers"] = fp
+                cfg = rb.Cfg(version, "A")
+                try:
+                    shared = pt.OptimizeOptions(**kw)
+                    pt.compileTeal(rb.build(progs[a], cfg, TICK), pt.Mode.Application, version=version, optimize=shared)
+                    t_shared = pt.compileTeal(rb.build(progs[b], cfg, TICK), pt.Mode.Application, version=version, optimize=shared)
+                    t_fresh = pt.compileTeal(rb.build(progs[b], cfg, TICK), pt.Mode.Application, version=version,
+                                             optimize=pt.OptimizeOptions(**kw))
+                except drive.PT_ERRORS:
+                    rep.add("shared_options_pterr")
+                    continue
+                rep.add("traces_validated")
+                rep.add("shared_options_pairs")
+                if t_shared != t_fresh:
+                    rep.violations.append({
+                        "driver": "shared-options", "size": 2,
+                        "title": "program %r compiled with an OptimizeOptions object previously used for %r differs from the same program compiled with a fresh, equal options object (v%d fp=%s)" % (b, a, version, fp),
+                        "first": a, "second": b, "version": version, "fp": fp, "teal": t_shared, "pivot_teal": t_fresh,
+                        "features": dict(optimizer_diff_features(t_fresh, t_shared), kind="shared-options")})
 
 
 def run(tier):
@@ -240,6 +281,7 @@ def run(tier):
     rep.bounds["ctrl_max_nodes"] = n_full
     for sh in common.pmap_shards(_worker, items, order_seed=rep.seed):
         rep.merge(sh)
+    shared_options_driver(rep)
     rep.counters["distinct_nontrivial"] = rep.counters.get("states", 0)
     rep.assumptions = ["reference AVM interpreter"]
     if not rep.counters.get("stack_pairs"):
@@ -248,6 +290,14 @@ def run(tier):
 
 
 def replay(case):
+    if case.get("driver") == "shared-options":
+        rep = common.Report(PID, "quick")
+        shared_options_driver(rep)
+        hits = [v for v in rep.violations if (v["first"], v["second"], v["version"], v["fp"]) ==
+                (case["first"], case["second"], case["version"], case["fp"])]
+        for v in hits:
+            print("still violates:", v["title"])
+        return bool(hits)
     cfg = rb.Cfg.from_json(case["cfg"])
     piv = rb.Cfg.from_json(case["pivot"])
     out = {"counters": {}, "outcomes": {}, "violations": [], "samples": []}
